@@ -38,8 +38,10 @@ func opPeer(op string) string {
 	return f[1]
 }
 
-// pairOwner names the property a pair of operations belongs to.
-func pairOwner(a, b string) string {
+// pairOwners names the properties a pair of operations belongs to: the one that governs its operations, and —
+// when one side is a teardown — C10 as well as the property of the other side ("every other binding / entry /
+// authorisation stays in place" is stated there too).
+func pairOwners(a, b string) []string {
 	ka, kb := opKind(a), opKind(b)
 	is := func(k ...string) bool {
 		for _, x := range k {
@@ -49,16 +51,31 @@ func pairOwner(a, b string) string {
 		}
 		return false
 	}
-	switch {
-	case is("disc", "entrm"):
-		return "C10"
-	case is("write"):
-		return "C03"
-	case is("bind", "unbind"):
-		return "C09"
-	default:
-		return "C08"
+	var o []string
+	if is("disc", "entrm") {
+		o = append(o, "C10")
 	}
+	switch {
+	case is("write"):
+		o = append(o, "C03")
+	case is("bind", "unbind"):
+		o = append(o, "C09")
+	case is("sub", "unsub", "set", "lupd"):
+		o = append(o, "C08")
+	}
+	if len(o) == 0 {
+		o = []string{"C10"}
+	}
+	return o
+}
+
+func pairOwnedBy(owner, a, b string) bool {
+	for _, o := range pairOwners(a, b) {
+		if o == owner {
+			return true
+		}
+	}
+	return false
 }
 
 // pairMatrix returns the scenarios of the matrix owned by the given property. The quick tier takes
@@ -66,7 +83,7 @@ func pairOwner(a, b string) string {
 func pairMatrix(owner string, thorough bool) []*engine.SScenario {
 	var scs []*engine.SScenario
 	add := func(a, b string) {
-		if pairOwner(a, b) != owner {
+		if !pairOwnedBy(owner, a, b) {
 			return
 		}
 		// (a connection removal while the reader of that very connection is still processing a message is part of
@@ -90,7 +107,8 @@ func pairMatrix(owner string, thorough bool) []*engine.SScenario {
 			// teardowns are long operations: the quick tier explores these pairs up to one deviation
 			// (not the removals racing the reader of the same connection: those need two deviations — the message has
 			// to pass the entry of message handling before the removal starts, and the removal has to be interrupted)
-			sc.Heavy = owner == "C10" && !same
+			teardown := opKind(a) == "disc" || opKind(b) == "disc" || opKind(a) == "entrm" || opKind(b) == "entrm"
+			sc.Heavy = teardown && !same
 			scs = append(scs, sc)
 		}
 	}
